@@ -39,3 +39,35 @@ theorem inv3_reach {b : List Nat} {s : St} (h : Reach lts (init b) s) : Inv3 s :
   | step _ hs ih => exact inv3_step ih hs
 
 end GoSup.CompLts
+
+namespace GoSup.CompLts
+open GoSup.Core GoSup.CompSeq
+
+/-- who holds `runnablesMu`, and when the configuration is there -/
+structure Inv4 (s : St) : Prop where
+  muRun : s.mu = some .run ↔ ((∃ p, s.run = .stopping p) ∨ (∃ p c, s.run = .failStopping p c))
+  muRl  : s.mu = some .reload ↔ (∃ cfg p, s.rl = .stopping cfg p)
+  cfg   : s.cfg = none → (s.run = .idle ∨ s.run = .entered ∨ ∃ r, s.run = .returned r)
+
+theorem inv4_init (b : List Nat) : Inv4 (init b) := by
+  refine ⟨?_, ?_, ?_⟩ <;> simp [init]
+
+@[simp] theorem boot_mu (s : St) (f : Bool) (c : List (Nat × Nat)) : (boot s f c).mu = s.mu := by unfold boot; split <;> rfl
+@[simp] theorem setChild_mu (s : St) (g c : Nat) (st : ChildSt) : (setChild s g c st).mu = s.mu := rfl
+@[simp] theorem cancelLive_mu (s : St) : (cancelLive s).mu = s.mu := by unfold cancelLive; split <;> rfl
+
+theorem inv4_step {s s' : St} {a : Act} (h : Inv4 s) (hs : step s a = some s') : Inv4 s' := by
+  obtain ⟨h1, h2, h3⟩ := h
+  cases a <;> simp only [step] at hs
+  all_goals
+    repeat' (split at hs)
+    all_goals first
+      | (cases hs; done)
+      | (cases hs; refine ⟨?_, ?_, ?_⟩ <;> simp_all)
+
+theorem inv4_reach {b : List Nat} {s : St} (h : Reach lts (init b) s) : Inv4 s := by
+  induction h with
+  | init => exact inv4_init b
+  | step _ hs ih => exact inv4_step ih hs
+
+end GoSup.CompLts
